@@ -54,10 +54,10 @@ PROPS = {
     },
     "C08": {
         "n": {"quick": 80, "thorough": 2000}, "diff_is_failure": True, "trivial_outs": {"i1", ""},
-        "rule": "catalogue: 38 commands (every write of the string/key family plus reads and failing variants) x 4 initial states of the watched key x {other connection on the watched key, same connection, other connection on other keys only} -> WATCH, command, MULTI, SET probe, EXEC, observe nil vs array and the probe; plus random 3-connection histories with WATCH/UNWATCH/MULTI/EXEC/DISCARD/SELECT and writers; one evaluation = one reply compared with the model",
+        "rule": "catalogue: 99 commands (every write of the string/key family and of the list/set/hash families, incl. the ones that mark without changing anything (LTRIM 0 -1, HDEL of a missing field, HSET of the same value) and the ones that change nothing and must not mark (LREM/SREM of an absent element, SPOP 0, refused HINCRBY/LSET), plus reads and failing variants) x 10 initial states of the watched key (missing, 3 strings, list/set/hash with one and with several elements, some with a deadline) x {other connection on the watched key, same connection, other connection on other keys only} -> WATCH, command, MULTI, SET probe, EXEC, observe nil vs array and the probe; plus random 3-connection histories with WATCH/UNWATCH/MULTI/EXEC/DISCARD/SELECT and writers; one evaluation = one reply compared with the model",
         "explanation": "theorems: tracker soundness/completeness, EXEC abort rule, table obligations over the engine census; tie: exhaustive catalogue + random histories",
         "trusted_base": SRV_TB + ["tools/gen_tables.py: per-function census of mark_modified call sites in engine.rs"],
-        "assumptions": ["list/set/hash/zset/stream writers are added to the catalogue as their families are merged"],
+        "assumptions": ["zset/stream writers are added to the catalogue as their families are merged", "SPOP/SRANDMEMBER appear in the catalogue outside MULTI only (the runner has no oracle for queued commands)"],
     },
     "C02": {
         "n": {"quick": 40, "thorough": 600}, "diff_is_failure": True, "judge": True, "trivial_outs": {"i1", ""}, "run_timeout": 2400,
